@@ -1,11 +1,11 @@
 #!/bin/bash
-# usage: tools/collect_seed.sh <PID> <k>   - confirm a sub-agent's seeded change in a FRESH scratch worktree and file it under /verif/seeded/
+# usage: tools/collect_seed.sh <PID> <k> [subdir=_seed] [idtag]   - confirm a sub-agent's seeded change in a FRESH scratch worktree and file it under /verif/seeded/
 # confirms: patch applies, suite still passes (41), demo fails with the change and passes without; then runs the checks on it.
 set -u
-pid=$1; k=$2
-src=/tmp/wt_$pid/_seed/$k
+pid=$1; k=$2; sub=${3:-_seed}; tag=${4:-}
+src=/tmp/wt_$pid/$sub/$k
 [ -f $src/patch.diff ] || { echo "no patch at $src"; exit 3; }
-id=${pid}-$k
+id=${pid}-${tag}$k
 wt=/tmp/confirm_$id
 git -C /repo worktree add --detach $wt HEAD >/dev/null 2>&1 || { echo "cannot create worktree"; exit 3; }
 cleanup() { git -C /repo worktree remove --force $wt >/dev/null 2>&1; rm -rf /tmp/pytest-of-root; }
